@@ -272,5 +272,36 @@ pub fn trace_main(prop: &str, seed: u64, from: u64, to: u64) {
             }
         })
         .unwrap();
-    let _ = h.join();
+    if h.join().is_err() {
+        let p = crate::eval::GLOBAL_LAST_PANIC.lock().ok().and_then(|g| g.clone());
+        eprintln!("harness error: simulator thread panicked: {:?}", p);
+        std::process::exit(3);
+    }
+}
+
+/// Print both legs' outcomes of the case in a replay file in full (debugging aid).
+pub fn show_main(file: &str) {
+    let s = std::fs::read_to_string(file).expect("read");
+    let v: Value = serde_json::from_str(&s).expect("json");
+    let case = Case::from_json(v.get("case").unwrap_or(&v)).expect("case");
+    crate::eval::install_panic_hook();
+    let w = World::new();
+    let show = |name: &str, o: &crate::eval::LegOut| {
+        let r = match &o.res {
+            crate::eval::LegRes::Ok(v) => format!("Ok({})", v.debug()),
+            crate::eval::LegRes::Err { info, .. } => format!("Err({} {})", info.kind, info.msg),
+            crate::eval::LegRes::Panic { site, msg } => format!("Panic({} {})", site, msg),
+            crate::eval::LegRes::Hang { polls } => format!("Hang({})", polls),
+            crate::eval::LegRes::LostWake { polls } => format!("LostWake({})", polls),
+        };
+        println!("{}: consumed={} skip_ret={:?} total={} polls={} alloc={:?}\n  res={}\n  next={:?}", name, o.consumed, o.skip_ret, o.consumed_total, o.polls, o.alloc, r, o.next);
+    };
+    if case.run_mem {
+        let m = crate::eval::run_mem(&case, &w.gens, crate::eval::AllocCaps::default(), 0);
+        show("mem", &m);
+    }
+    if case.run_stream {
+        let m = crate::eval::run_stream(&case, &w.gens, crate::eval::AllocCaps::default(), 0);
+        show("stream", &m);
+    }
 }
